@@ -95,6 +95,9 @@ type QGenOpts struct {
 	Shift    bool
 	Where    bool
 	NoPeriod bool // no period()/stride() (results must not depend on the clock)
+	// InSubTables: tables that IN (SELECT ...) predicates may read (none = no
+	// IN-subqueries)
+	InSubTables []TableDef
 	NoConst  bool // no derived fields with constant operands (finding C01-gap-row-const)
 	// DataSpan is how far back (ns, positive) the data reaches from Base, for
 	// window generation.
@@ -205,6 +208,29 @@ func genQuery(r *Rng, t *TableDef, u *Universe, o QGenOpts) *QSpec {
 	if o.Where && r.Bool(0.35) {
 		q.Where = genPred(r, u, 1)
 	}
+	if len(o.InSubTables) > 0 && r.Bool(0.25) {
+		// one or two IN-subqueries (over other tables too), optionally next to
+		// an ordinary predicate
+		var parts []string
+		for i, n := 0, r.Range(1, 2); i < n; i++ {
+			t2 := &o.InSubTables[r.Intn(len(o.InSubTables))]
+			dim := PickOne(r, []string{"da", "db"})
+			sub := fmt.Sprintf("SELECT %s FROM %s", dim, t2.Name)
+			if r.Bool(0.5) {
+				sub += " WHERE " + genPred(r, u, 1).SQL()
+			}
+			sub += " GROUP BY " + dim
+			if r.Bool(0.4) {
+				sub += fmt.Sprintf(" HAVING _points %s %d", PickOne(r, []string{">", ">="}), r.Range(1, 3))
+			}
+			parts = append(parts, fmt.Sprintf("%s IN (%s)", dim, sub))
+		}
+		if q.Where != nil {
+			parts = append(parts, "("+q.Where.SQL()+")")
+			q.Where = nil
+		}
+		q.WhereRaw = strings.Join(parts, PickOne(r, []string{" AND ", " AND ", " OR "}))
+	}
 	res := time.Duration(t.ResNanos)
 	if o.Window && r.Bool(0.45) {
 		span := o.DataSpan
@@ -299,15 +325,25 @@ func genQuery(r *Rng, t *TableDef, u *Universe, o QGenOpts) *QSpec {
 			q.Offset = r.Range(1, 8)
 		}
 	}
-	if o.Sub && r.Bool(0.12) {
-		// wrap: outer query over the inner result
+	if o.Sub && r.Bool(0.15) {
+		// wrap: outer query over the inner result (one or two levels); the
+		// outer GROUP BY may keep a plain dim, nothing, everything, or only a
+		// computed dim
 		inner := q
 		inner.Order, inner.Limit, inner.Offset = nil, 0, 0
-		outer := &QSpec{FromSub: inner}
 		in := selNames(inner.Sel, t)
-		outer.Sel = []string{PickOne(r, in)}
-		if r.Bool(0.5) {
-			outer.GroupBy = []string{PickOne(r, append([]string{"_", "*"}, dimNames(u)...))}
+		wrap := func(in *QSpec, names []string) *QSpec {
+			outer := &QSpec{FromSub: in}
+			outer.Sel = []string{PickOne(r, names)}
+			if r.Bool(0.6) {
+				d := PickOne(r, dimNames(u))
+				outer.GroupBy = []string{PickOne(r, []string{"_", "*", d, d, fmt.Sprintf("CONCAT('_', %s, 'k') AS %sk", d, d)})}
+			}
+			return outer
+		}
+		outer := wrap(inner, in)
+		if r.Bool(0.3) {
+			outer = wrap(outer, outer.Sel)
 		}
 		return outer
 	}
